@@ -41,7 +41,12 @@ MANIFEST = dict(
          "loop points compared only when the loop flag is set. Domain restrictions found by the oracle/proofs: the S3M/IT scan from order 0 (entries naming no "
          "stored pattern are skipped) must reach a stored pattern before an end marker, MOD sample bodies must not spell 'ADPCM' at a sample start, an XM "
          "sample that stores >= 8 bytes must not have 'OggS' at its own offset 4 (it would legitimately be an Ogg sample), IT samples of exactly one frame are never loaded (len>1 test), an IT "
-         "pattern stored as offset 0 is 64 rows. Genuine defects found by this check and repaired in /repo (witnesses in corpus/C19, run first): "
+         "pattern stored as offset 0 is 64 rows. Generators: every numeric header field is drawn from its boundary set with decent probability (speed/tempo "
+         "{1,2,31,32,125,254,255}, volume/pan bytes {0,1,63,64,127,128,255}, sample rates 0..2^32-1 extremes, sample lengths "
+         "1/2/odd, order-list lengths at the maxima) and size class 9 writes the formats' maximum counts with tiny contents "
+         "(MOD 128 patterns with order value 127, S3M 254 patterns/255 orders/255 instruments, XM 256 patterns/256 orders/255 "
+         "instruments/256 rows/16 samples per instrument, IT 200 patterns/256 orders/255 samples and instruments/200 rows); the "
+         "WellFormed predicates admit these maxima (decide examples in XmpProps/C19.lean). Genuine defects found by this check and repaired in /repo (witnesses in corpus/C19, run first): "
          "XM is_ogg_sample probed the file behind samples shorter than 8 bytes (f3de111); a scan whose computed duration went negative "
          "(IT tempo slide plus speed change on one row) refused the module (d83ea15). Trusted: the hand-written models (tied by correspondence: 4 x 160 mutants + corpus per "
          "quick run, generated files incl. IT instrument mode and every XM header-size variant), the harness dump, the differ.",
@@ -281,8 +286,11 @@ def run(ck):
             reqs.append("gen %s %s-g%d %d %d" % (fmt, fmt, i, ck.seed * 100003 + i * 7 + vlib.hash_str(fmt) % 1000, size))
         # size classes with sample data placed beyond 64 KiB (5) and beyond 1 MiB (6) of the file, for every format;
         # long IT-compressed samples spanning several blocks (3)
-        nbig = {"quick": (2, 1, 3), "thorough": (6, 3, 12)}[ck.tier]
-        for cls, cnt in ((5, nbig[0]), (6, nbig[1])) + (((3, nbig[2]),) if fmt == "it" else ()):
+        # the formats' maximum counts with tiny contents (9): MOD 128 patterns / order value 127, S3M 254 patterns / 255
+        # orders / 255 instruments, XM 256 patterns / 256 orders / 255 instruments / 256 rows, IT 200 patterns / 256 orders /
+        # 255 samples and instruments / 200 rows
+        nbig = {"quick": (2, 1, 3, 4), "thorough": (6, 3, 12, 16)}[ck.tier]
+        for cls, cnt in ((5, nbig[0]), (6, nbig[1]), (9, nbig[3])) + (((3, nbig[2]),) if fmt == "it" else ()):
             for j in range(cnt):
                 reqs.append("gen %s %s-s%d-%d %d %d" % (fmt, fmt, cls, j, ck.seed * 100003 + 31 * j + cls, cls))
         if fmt == "xm":
@@ -335,9 +343,9 @@ def run(ck):
             ck.count(key, nontrivial=nontrivial)
             bump(fmt + "_oracle_cases")
             sp = (meta.get("opts") or "").split(" ")[0]
-            if sp in ("special=3", "special=5", "special=6"):
+            if sp in ("special=3", "special=5", "special=6", "special=9"):
                 bump(fmt + "_oracle_" + {"special=3": "multiblock_compressed", "special=5": "samples_beyond_64KiB",
-                                         "special=6": "samples_beyond_1MiB"}[sp])
+                                         "special=6": "samples_beyond_1MiB", "special=9": "format_maxima"}[sp])
             bump(fmt + "_oracle_bytes", len(data))
             ck.sample({"fmt": fmt, "id": cid, "opts": meta.get("opts"), "size": len(data)}, limit=6)
             if rbody and rbody[0].startswith("loadfail"):
